@@ -384,6 +384,113 @@ where
     }
 }
 
+/// Interp2D::get_index_left_of with x and y as two views of one buffer (same first element,
+/// often the same length, different strides) and bit-identical diagonal queries: each
+/// coordinate must be bracketed on its own axis.
+fn aliased_axes_lookups(ev: &mut Ev) {
+    use vh::ndarray::{s, Array2};
+    use vh::ndarray_interp::interp2d::{Bilinear, Interp2D};
+    let mut rng = Rng::derive(11, "C11-aliased-axes", &[0]);
+    for round in 0..200u64 {
+        let n = 3 + rng.below(7);
+        let ny = if round % 3 == 0 { 2 + rng.below(n) } else { n };
+        let len = n.max(2 * ny - 1);
+        let mut pos = rng.irange(-12, 12) as f64 * 0.25;
+        let table: Array1<f64> = (0..len)
+            .map(|_| {
+                let v = pos;
+                pos += 0.25 * (1 + rng.below(6)) as f64;
+                v
+            })
+            .collect();
+        let (xv, yv) = (table.slice(s![..n]), table.slice(s![..2 * ny - 1;2]));
+        let data = Array2::<f64>::zeros((n, ny));
+        let (xs, ys): (Vec<f64>, Vec<f64>) = (xv.to_vec(), yv.to_vec());
+        let interp = if round % 2 == 0 {
+            Interp2D::builder(data.view()).x(xv).y(yv).build().unwrap()
+        } else {
+            Interp2D::new_unchecked(xv, yv, data.view(), Bilinear::new())
+        };
+        let hi = xs[n - 1].min(ys[ny - 1]);
+        let mut qs: Vec<(f64, f64)> = Vec::new();
+        for _ in 0..12 {
+            let q = xs[0] + rng.f01() * (hi - xs[0]);
+            qs.push((q, q));
+        }
+        for &k in xs.iter().chain(ys.iter()) {
+            if k <= hi {
+                qs.push((k, k));
+            }
+        }
+        for _ in 0..6 {
+            qs.push((xs[0] + rng.f01() * (xs[n - 1] - xs[0]), ys[0] + rng.f01() * (ys[ny - 1] - ys[0])));
+        }
+        ev.case(vh::rng::fnv(format!("aliased{round}").as_bytes()), true);
+        ev.count("axis_class", "aliased-x-y-views");
+        for (qx, qy) in qs {
+            ev.add("lookups", 1);
+            ev.add("aliased_axes_lookups", 1);
+            let want = (oracle(&xs, qx), oracle(&ys, qy));
+            let got = guard(|| interp.get_index_left_of(qx, qy));
+            if got != Ok(want) {
+                ev.violation(
+                    "C11:wrong-interval",
+                    &format!(
+                        "Interp2D over two views of one table (x = t[..{n}], y = t[..;2] with {ny} values; {}), q=({qx:?},{qy:?}): expected {:?}, got {:?}",
+                        if round % 2 == 0 { "builder" } else { "new_unchecked" },
+                        want,
+                        got
+                    ),
+                    9_500_000 + round,
+                    J::obj().set("round", round),
+                );
+                break;
+            }
+        }
+    }
+}
+
+/// axes whose span (or whose (len-1)/span) is not representable: sentinel knots at +-MAX,
+/// infinite end knots, knots a few subnormals apart
+fn overflowing_span_lookups(ev: &mut Ev) {
+    let (m, inf, tiny) = (f64::MAX, f64::INFINITY, 5e-324);
+    let axes: Vec<Vec<f64>> = vec![
+        vec![-m, -1.0, 0.5, 3.0, m],
+        vec![-m, 0.0, m],
+        vec![-m, m],
+        vec![-1.0e308, -1.0, 1.0e308, 1.5e308],
+        vec![0.0, 1.0, 2.0, inf],
+        vec![-inf, -2.0, 0.0, 4.0],
+        vec![-inf, 0.0, inf],
+        vec![0.0, tiny, 2.0 * tiny, 5.0 * tiny],
+        vec![-3.0 * tiny, -tiny, 0.0, tiny, 4.0 * tiny, 9.0 * tiny],
+        (0..300).map(|i| i as f64 * tiny).collect(),
+    ];
+    for (k, ax) in axes.iter().enumerate() {
+        let x = Array1::from(ax.clone());
+        let mut qs: Vec<f64> = ax.clone();
+        for w in ax.windows(2) {
+            let mid = w[0] / 2.0 + w[1] / 2.0;
+            if mid.is_finite() {
+                qs.push(mid);
+            }
+        }
+        for &v in ax.iter() {
+            if v.is_finite() {
+                qs.push(v.up());
+                qs.push(v.down());
+            }
+        }
+        qs.extend([0.25, -0.25, 1.0e300, -1.0e300, m, -m, inf, -inf]);
+        ev.case(vh::rng::fnv(format!("overflow-axis{k}").as_bytes()), true);
+        ev.count("axis_class", "overflowing-span");
+        for &q in &qs {
+            ev.add("overflowing_span_lookups", 1);
+            check_one::<f64>(ev, 9_600_000 + k as u64, &x, ax, q, "overflowing-span", "get_lower_index");
+        }
+    }
+}
+
 fn main() {
     let args = Args::parse("C11");
     let max_len: usize = args.extra_u64("max-len").map(|v| v as usize).unwrap_or(if args.thorough() { 64 } else { 40 });
@@ -422,6 +529,10 @@ fn main() {
     };
     let mut ev = ev_a;
     ev.merge(ev_b);
+    if args.only.is_none() && args.shard == 0 {
+        aliased_axes_lookups(&mut ev);
+        overflowing_span_lookups(&mut ev);
+    }
     let expect: u64 = (2..=max_len as u64).map(|l| (l - 1) * (l - 1)).sum();
     let complete = ev.get("exhaustive_combinations") == expect && args.only.is_none();
     ev.finish(
